@@ -169,6 +169,13 @@ func DrawValue(i uint64) float64 { return float64(int64(i&(1<<63-1))) / (1 << 63
 // Exec re-arms the seams, starts a session and applies the resumes (world.MakeResume names:
 // "msg:<text>", "timeout", "expire"). Every random draw returns DrawValue(draw63).
 func Exec(sa flows.SessionAssets, trig []byte, draw63 uint64, resumes ...string) *Run {
+	return ExecEach(sa, trig, draw63, nil, resumes...)
+}
+
+// ExecEach is Exec with an observer: after is called on the live (never re-read) session after every
+// sprint - the one that starts the session and the one of every resume; when it returns false the
+// remaining resumes are not applied.
+func ExecEach(sa flows.SessionAssets, trig []byte, draw63 uint64, after func(*Run) bool, resumes ...string) *Run {
 	r := &Run{}
 	if _, err := base(); err != nil {
 		r.Err = err
@@ -191,6 +198,9 @@ func Exec(sa flows.SessionAssets, trig []byte, draw63 uint64, resumes ...string)
 		if sp != nil {
 			r.Sprints = append(r.Sprints, sp)
 		}
+		if after != nil && r.Err == nil && !after(r) {
+			return
+		}
 		for _, ev := range resumes {
 			if r.Err != nil {
 				return
@@ -198,6 +208,9 @@ func Exec(sa flows.SessionAssets, trig []byte, draw63 uint64, resumes ...string)
 			sp, r.Err = r.Session.Resume(world.MakeResume(ev))
 			if sp != nil {
 				r.Sprints = append(r.Sprints, sp)
+			}
+			if after != nil && r.Err == nil && !after(r) {
+				return
 			}
 		}
 	})
